@@ -35,6 +35,9 @@ func init() {
 			ruleSortedNames(c)
 			c.Clause("C17-D4")
 			ruleContextKeys(c, d)
+			if d != nil {
+				ruleHandlerFromAssigner(c, d)
+			}
 			c.Clause("C17-D5")
 			ruleServerInfo(c)
 		},
@@ -67,8 +70,10 @@ func init() {
 			ruleGetterStatus(c)
 			c.Clause("C19-D2/D3")
 			ruleQueryParams(c)
+			ruleQuerySliceBounds(c)
 			c.Clause("C19-D4")
 			ruleBodiesClosed(c)
+			ruleRecvClosesBody(c)
 			c.Clause("C19-D5")
 			ruleGo(c, pkgGo(c, "jhttp"), 2, "Send, Close")
 		},
